@@ -335,6 +335,21 @@ def run(ctx):
     for sc in scen + lib:
         res = out[sc["id"]]
         nscript += 1
+        if sc["kind"] == "pairs":
+            # a workload next to the model checking: a watchdog that expired WITHOUT anybody waiting for a mutex depends on the
+            # machine; once more, alone, with long watchdogs (DESIGN 2.6) - only what repeats is reported
+            absent = [d for d in res.get("divs") or [] if d["signature"].startswith(("unanswered:", "stop-timeout")) and "lock-" not in d["signature"]]
+            if absent:
+                slow = dict(sc, id=sc["id"] + "_slow", request_ms=8000, stop_ms=8000)
+                r2 = cl.run_driver(ctx, [slow], race=False, par=1, timeout=400)[slow["id"]]
+                again = {d["signature"].split(":")[0] for d in r2.get("divs") or []}
+                keep = []
+                for d in res.get("divs") or []:
+                    if d in absent and d["signature"].split(":")[0] not in again:
+                        ctx.cov["timing_unconfirmed"] = ctx.cov.get("timing_unconfirmed", 0) + 1
+                    else:
+                        keep.append(d)
+                res["divs"] = keep
         n = report_divs(ctx, sc, res, origin[sc["id"]], seen)
         ctx.sample({"scenario": sc["id"], "origin": origin[sc["id"]], "steps": sc.get("steps"),
                     "divergences": [cl.canon_sig(d["signature"]) for d in res.get("divs") or []]}, cap=8)
@@ -346,6 +361,11 @@ def run(ctx):
             # a behaviour of the model alone is never a verdict: it must reproduce -- and reproduce the predicted divergence
             want = cl.DEVIATIONS.get(sc["id"][3:])
             got = {cl.canon_sig(d["signature"]) for d in res.get("divs") or []}
+            if n == 0 and closed.get(sc["id"][3:]):
+                # the extraction says this defect is repaired: the state the search reached is then a transient one (the guarded
+                # operation leaves it through its close branch), the script is expected to run clean - and did
+                ctx.cov.setdefault("repaired_targets_transient", []).append(sc["id"][3:])
+                continue
             if n == 0 or (want and want not in got):
                 res2 = cl.run_driver(ctx, [sc], race=False, par=1)[sc["id"]]      # one repetition (timing)
                 n += report_divs(ctx, sc, res2, origin[sc["id"]], seen)
